@@ -173,7 +173,7 @@ pub trait ChildrenMore {
 cglue_trait_group!(GrpR, ReadOnly, { IntResAlias });
 cglue_trait_group!(GrpA, Basic, { Shapes, IntRes });
 cglue_trait_group!(GrpB, { Basic, Clone }, { Shapes, Children, Consume, Gen<usize> = GenUsize });
-cglue_trait_group!(GrpC, { ReadOnly, Consume }, { Basic, ChildrenMore, Gen<u64> = GenU64 });
+cglue_trait_group!(GrpC, { ReadOnly, Consume }, { Basic, ChildrenMore, Gen<u64> = GenU64, Gen<usize> = GenUsize });
 
 // -------------------------------------------------------------------------------------------
 // implementors
